@@ -97,6 +97,29 @@ int main(int argc, char** argv) {
             }
         }
     }
+    // the named constants applications compare against must carry the values of the specification (reported verbatim = by name too)
+    {
+        namespace rc = boost::mqtt5::reason_codes;
+        struct N { const char* name; int lib; int spec; } names[] = {
+            {"success", rc::success.value(), 0x00}, {"normal_disconnection", rc::normal_disconnection.value(), 0x00}, {"granted_qos_0", rc::granted_qos_0.value(), 0x00}, {"granted_qos_1", rc::granted_qos_1.value(), 0x01},
+            {"granted_qos_2", rc::granted_qos_2.value(), 0x02}, {"disconnect_with_will_message", rc::disconnect_with_will_message.value(), 0x04}, {"no_matching_subscribers", rc::no_matching_subscribers.value(), 0x10},
+            {"no_subscription_existed", rc::no_subscription_existed.value(), 0x11}, {"continue_authentication", rc::continue_authentication.value(), 0x18}, {"reauthenticate", rc::reauthenticate.value(), 0x19},
+            {"unspecified_error", rc::unspecified_error.value(), 0x80}, {"malformed_packet", rc::malformed_packet.value(), 0x81}, {"protocol_error", rc::protocol_error.value(), 0x82},
+            {"implementation_specific_error", rc::implementation_specific_error.value(), 0x83}, {"unsupported_protocol_version", rc::unsupported_protocol_version.value(), 0x84},
+            {"client_identifier_not_valid", rc::client_identifier_not_valid.value(), 0x85}, {"bad_username_or_password", rc::bad_username_or_password.value(), 0x86}, {"not_authorized", rc::not_authorized.value(), 0x87},
+            {"server_unavailable", rc::server_unavailable.value(), 0x88}, {"server_busy", rc::server_busy.value(), 0x89}, {"banned", rc::banned.value(), 0x8A}, {"server_shutting_down", rc::server_shutting_down.value(), 0x8B},
+            {"bad_authentication_method", rc::bad_authentication_method.value(), 0x8C}, {"keep_alive_timeout", rc::keep_alive_timeout.value(), 0x8D}, {"session_taken_over", rc::session_taken_over.value(), 0x8E},
+            {"topic_filter_invalid", rc::topic_filter_invalid.value(), 0x8F}, {"topic_name_invalid", rc::topic_name_invalid.value(), 0x90}, {"packet_identifier_in_use", rc::packet_identifier_in_use.value(), 0x91},
+            {"packet_identifier_not_found", rc::packet_identifier_not_found.value(), 0x92}, {"receive_maximum_exceeded", rc::receive_maximum_exceeded.value(), 0x93}, {"topic_alias_invalid", rc::topic_alias_invalid.value(), 0x94},
+            {"packet_too_large", rc::packet_too_large.value(), 0x95}, {"message_rate_too_high", rc::message_rate_too_high.value(), 0x96}, {"quota_exceeded", rc::quota_exceeded.value(), 0x97},
+            {"administrative_action", rc::administrative_action.value(), 0x98}, {"payload_format_invalid", rc::payload_format_invalid.value(), 0x99}, {"retain_not_supported", rc::retain_not_supported.value(), 0x9A},
+            {"qos_not_supported", rc::qos_not_supported.value(), 0x9B}, {"use_another_server", rc::use_another_server.value(), 0x9C}, {"server_moved", rc::server_moved.value(), 0x9D},
+            {"shared_subscriptions_not_supported", rc::shared_subscriptions_not_supported.value(), 0x9E}, {"connection_rate_exceeded", rc::connection_rate_exceeded.value(), 0x9F},
+            {"maximum_connect_time", rc::maximum_connect_time.value(), 0xA0}, {"subscription_ids_not_supported", rc::subscription_ids_not_supported.value(), 0xA1},
+            {"wildcard_subscriptions_not_supported", rc::wildcard_subscriptions_not_supported.value(), 0xA2} };
+        if (!only) for (auto& n : names) { R.evaluations++; if (n.lib != n.spec) { char d[200]; snprintf(d, sizeof d, "reason_codes::%s has value 0x%02x, the specification assigns 0x%02x", n.name, n.lib, n.spec);
+            R.violation(std::string("C20:named-constant:") + n.name, d, "{\"kind\":\"c20\",\"cat\":\"connack\",\"code\":0}"); } }
+    }
     R.exhaustive = !only;
     return R.write(out);
 }
